@@ -270,11 +270,48 @@ func TestC11StateProofs(t *testing.T) {
 				caddr := c11AccID(1000 + c)
 				cid := types.ToAccountID(caddr[:])
 				cst := blk.accounts[string(cid[:])]
-				if cst == nil || len(cst.StorageRoot) == 0 {
-					continue
+				if cst == nil {
+					// the contract holds nothing at this block: ask a plain account (exists, never had storage) instead
+					var ids []string
+					for id, st := range blk.accounts {
+						if len(st.StorageRoot) == 0 {
+							ids = append(ids, id)
+						}
+					}
+					if len(ids) == 0 {
+						continue
+					}
+					sort.Strings(ids)
+					cst = blk.accounts[rapid.SampledFrom(ids).Draw(t, "plainAcc")]
 				}
 				vk := fmt.Sprintf("var%d", rapid.IntRange(0, 11).Draw(t, "qvk"))
 				tkey := common.Hasher([]byte(vk))
+				if len(cst.StorageRoot) == 0 {
+					// an existing account without storage (all variables deleted again, or never written): every variable
+					// is absent, and the proof of that belongs to the EMPTY storage trie, not to any other trie. The key may
+					// be anything a client sends, also the trie key of an account
+					if rapid.Bool().Draw(t, "keyIsAnAccountId") {
+						var ids []string
+						for id := range blk.accounts {
+							ids = append(ids, id)
+						}
+						sort.Strings(ids)
+						tkey = []byte(rapid.SampledFrom(ids).Draw(t, "otherAcc"))
+					}
+					p, err := node.GetVarAndProof(tkey, cst.StorageRoot, compressed)
+					if err != nil {
+						t.Fatalf("GetVarAndProof on an account without storage: %v\nhistory: %v", err, hist)
+					}
+					where := fmt.Sprintf("variable %x of c%d, which has NO storage, at block %d (compressed=%v)\nhistory: %v", tkey[:4], c, bi, compressed, hist)
+					if p.Inclusion {
+						t.Fatalf("the node claims that an account without storage holds a variable (value of %d bytes): %s", len(p.Value), where)
+					}
+					if !safely(func() bool { return c11VerifyVar(nil, tkey, p, compressed) }) {
+						t.Fatalf("the proof of absence (%d audit nodes, proof key %x) does not verify against the empty storage root: %s", len(p.AuditPath), p.ProofKey, where)
+					}
+					classes["var-of-storage-less-account"] = true
+					continue
+				}
 				p, err := node.GetVarAndProof(tkey, cst.StorageRoot, compressed)
 				if err != nil {
 					t.Fatalf("GetVarAndProof: %v\nhistory: %v", err, hist)
